@@ -520,6 +520,90 @@ Definition fill_const_name (s : bytes) (fks : list pfk) : list pfk :=
   fold_left (fun acc m => match m with (c, n, t, rc) => rename_first acc n (columns c) t (columns rc) end)
             (find_all_fkc (S (length s)) s) fks1.
 
+(** ** indexInfo: the expressions of an index with expression parts
+    reIdxParts = (?i)ON\s+[<dq>`]*(?:\w+)[<dq>`]*\s*\((.+?)\)(\s*WHERE\s+.+)?$   ("." is not a newline; "$" is the end of the text)
+    reIdxDesc  = (?i)\s+DESC\s*$ *)
+Definition K_ON : bytes := [79;78].
+Definition K_DESC_REV : bytes := [67;83;69;68].
+Definition ch_nl : N := 10.
+Definition no_nl (s : bytes) : bool := forallb (fun c => negb (N.eqb c ch_nl)) s.
+Definition is_nil {A} (l : list A) : bool := match l with [] => true | _ => false end.
+(** [\s*WHERE\s+.+$]: the spaces after WHERE may hold newlines, the rest must not, and one byte must be left for [.+] *)
+Definition where_tail (s : bytes) : bool :=
+  match lit_ci K_WHERE (skip_while is_space s) with
+  | None => false
+  | Some r =>
+      let sp := take_while is_space r in
+      let u := skip_while is_space r in
+      negb (is_nil sp) && no_nl u &&
+      (negb (is_nil u) || (Nat.leb 2 (length sp) && negb (N.eqb (last sp 0) ch_nl)))
+  end.
+(** the lazy [(.+?)\)] followed by the end or the WHERE tail: the shortest non-empty prefix without newline *)
+Fixpoint lazy_parts (acc_rev s : bytes) : option bytes :=
+  match s with
+  | [] => None
+  | c :: s' =>
+      if negb (is_nil acc_rev) && N.eqb c ch_rp && (is_nil s' || where_tail s') then Some (rev acc_rev)
+      else if N.eqb c ch_nl then None
+      else lazy_parts (c :: acc_rev) s'
+  end.
+Definition match_idx_parts_at (s : bytes) : option bytes :=
+  match lit_ci K_ON s with
+  | Some r =>
+    match plus_space r with
+    | Some r1 =>
+      match word1 (skip_while is_quote r1) with
+      | Some (_, r2) =>
+        match skip_while is_space (skip_while is_quote r2) with
+        | c :: r3 => if N.eqb c ch_lp then lazy_parts [] r3 else None
+        | [] => None
+        end
+      | None => None
+      end
+    | None => None
+    end
+  | None => None
+  end.
+Fixpoint find_idx_parts (s : bytes) : option bytes :=
+  match match_idx_parts_at s with
+  | Some x => Some x
+  | None => match s with [] => None | _ :: s' => find_idx_parts s' end
+  end.
+(** reIdxDesc.ReplaceAllString(kx, <dq><dq>) on a trimmed text *)
+Definition strip_desc (kx : bytes) : bytes :=
+  match lit_ci K_DESC_REV (rev kx) with
+  | Some (c :: r1) => if is_space c then rev (skip_while is_space (c :: r1)) else kx
+  | _ => kx
+  end.
+Definition trim_left_comma_sp (s : bytes) : bytes := skip_while (fun c => N.eqb c ch_comma || N.eqb c ch_sp) s.
+Definition UNSUPPORTED : bytes := [60;117;110;115;117;112;112;111;114;116;101;100;62].
+
+Section IdxExprs.
+(** sqlx.ExprLastIndex (modelled in Diff/Schema.v; passed in to keep this file independent of it) *)
+Variable expr_last_index : bytes -> option nat.
+(** the loop over idx.Parts: (is_expr, desc) per part; the texts of the expression parts, in order *)
+Fixpoint idx_loop (x : bytes) (parts : list (bool * bool)) (stopped : bool) : list bytes :=
+  match parts with
+  | [] => []
+  | (isx, desc) :: ps =>
+      if stopped then (if isx then UNSUPPORTED :: idx_loop x ps true else idx_loop x ps true)
+      else match expr_last_index x with
+           | None => if isx then UNSUPPORTED :: idx_loop x ps true else idx_loop x ps true
+           | Some j =>
+               let kx := trim_space (firstn (S j) x) in
+               let kx' := if desc then strip_desc kx else kx in
+               let x' := trim_left_comma_sp (skipn (S j) x) in
+               if isx then kx' :: idx_loop x' ps false else idx_loop x' ps false
+           end
+  end.
+Definition idx_exprs (stmt : bytes) (parts : list (bool * bool)) : list bytes :=
+  if negb (existsb fst parts) then []
+  else match find_idx_parts stmt with
+       | None => idx_loop [] parts true
+       | Some x => idx_loop x parts false
+       end.
+End IdxExprs.
+
 (** ** the whole recovery for one table, in the order of inspectTable:
     columns (setGenExpr per hidden column, then autoinc), indexes (predicates),
     fks (fillConstName), fillChecks.  The first error aborts the inspection. *)
